@@ -56,6 +56,8 @@ type txnPlan struct {
 	//  lost-ack:    the bootstrap transaction that commits returns an error to the server
 	//  hold-after:  the bootstrap transaction that commits is held after the commit until Release
 	//  hold-before: every bootstrap transaction is held before sending until Release
+	//  hold-after-quiet: like hold-after, but nothing else happens (no resign, no fault): other
+	//               requests are issued and answered inside the winner's window, then Release
 	Mode string
 	N    int32
 	// StoreFault > 0: the StoreFault-th storage write after the committing bootstrap transaction fails
@@ -154,7 +156,7 @@ func (t *txnWrap) Commit() (*clientv3.TxnResponse, error) {
 	case "lost-ack":
 		atomic.AddInt32(&p.injected, 1)
 		return nil, fmt.Errorf("c20: injected lost acknowledgement of the bootstrap transaction")
-	case "hold-after":
+	case "hold-after", "hold-after-quiet":
 		select {
 		case <-p.release:
 		default:
